@@ -11,7 +11,8 @@
 #include <stdint.h>
 #include <limits.h>
 
-#define MAXFD 8192
+#define MAXFD 1048576
+static volatile int unreliable = 0;   /* a descriptor beyond the table was used: answers would be guesses */
 #define MAXP 16384
 static pthread_mutex_t mu = PTHREAD_MUTEX_INITIALIZER;
 static int tracked[MAXFD];          /* 0 unknown, 1 tracked, 2 not a data.evts file */
@@ -38,7 +39,8 @@ static void init(void) {
 }
 
 static int classify(int fd) { /* with mu held */
-  if (fd < 0 || fd >= MAXFD) return 2;
+  if (fd < 0) return 2;
+  if (fd >= MAXFD) { unreliable = 1; return 2; }
   if (tracked[fd]) return tracked[fd];
   char link[64], path[512];
   snprintf(link, sizeof link, "/proc/self/fd/%d", fd);
@@ -82,6 +84,7 @@ static void note_sync(int fd) {
 
 ssize_t write(int fd, const void *buf, size_t n) {
   init();
+  if (fd >= MAXFD) unreliable = 1;
   off_t off = (fd > 2 && fd < MAXFD && tracked[fd] != 2) ? lseek(fd, 0, SEEK_CUR) : -1;
   ssize_t r = real_write(fd, buf, n);
   if (off >= 0) note_write(fd, off, r);
@@ -90,6 +93,7 @@ ssize_t write(int fd, const void *buf, size_t n) {
 ssize_t pwrite64(int fd, const void *buf, size_t n, off64_t off) {
   init();
   ssize_t r = real_pwrite64(fd, buf, n, off);
+  if (fd >= MAXFD) unreliable = 1;
   if (fd > 2 && fd < MAXFD && tracked[fd] != 2) note_write(fd, off, r);
   return r;
 }
@@ -128,6 +132,7 @@ long svio_syncs(const char *path) {
 /* number of bytes in [a,b) written since the last successful sync of the file (not yet persisted) */
 int64_t svio_dirty_in(const char *path, int64_t a, int64_t b) {
   int64_t r = -1;
+  if (unreliable) return -1;
   pthread_mutex_lock(&mu);
   for (int i = 0; i < np; i++) if (strcmp(ptab[i].path, path) == 0) {
     r = 0;
